@@ -162,6 +162,21 @@ func (w *world) check(label string) {
 		}
 	}
 	changed := len(prev) != len(cur)
+	now := map[uintptr]bool{}
+	for _, e := range cur {
+		now[e.Ptr] = e.Valid
+	}
+	for _, e := range prev {
+		if v, ok := now[e.Ptr]; !ok {
+			w.sim.Count("index.removed")
+			if !e.Valid {
+				w.sim.Count("index.removed-while-invalid-or-expired")
+			}
+		} else if e.Valid && !v {
+			changed = true
+			w.sim.Count("index.became-invalid-or-expired")
+		}
+	}
 	for _, x := range cur {
 		if !x.InSorted || old[x.Ptr] {
 			continue
@@ -173,12 +188,12 @@ func (w *world) check(label string) {
 				continue
 			}
 			if y.ByID && y.ID == x.ID && (y.Ver > x.Ver || y.ConfVer > x.ConfVer) {
-				w.violate("regress-same-region", fmt.Sprintf("r%d", x.ID),
+				w.violate("regress-same-region", stepKind(label),
 					fmt.Sprintf("at %s (%s): %s was installed although the by-id index held the valid, newer %s; index before: %s; index after: %s",
 						fmtDur(w.sim.Now()), label, fmtEntry(x), fmtEntry(y), fmtIndex(prev), fmtIndex(cur)))
 			}
 			if y.InSorted && bytes.Compare(x.Start, y.Start) <= 0 && (len(x.End) == 0 || bytes.Compare(y.Start, x.End) < 0) && y.Ver > x.Ver {
-				w.violate("regress-overlap", fmt.Sprintf("r%d-over-r%d", x.ID, y.ID),
+				w.violate("regress-overlap", stepKind(label),
 					fmt.Sprintf("at %s (%s): %s was installed although the valid, newer %s starts inside its range; index before: %s; index after: %s",
 						fmtDur(w.sim.Now()), label, fmtEntry(x), fmtEntry(y), fmtIndex(prev), fmtIndex(cur)))
 			}
@@ -235,4 +250,52 @@ func cacheShape(es []locate.VerifLocatesimEntry, start, end []byte) (shape strin
 			return "hole", false
 		}
 	}
+}
+
+// probeKeyState counts from which cache state a point lookup starts.
+func (w *world) probeKeyState(api string, key []byte, byEnd bool) {
+	idx := locate.VerifLocatesimDumpIndex(w.cache)
+	var best *locate.VerifLocatesimEntry
+	for i := range idx {
+		e := &idx[i]
+		if !e.InSorted {
+			continue
+		}
+		c := bytes.Compare(e.Start, key)
+		if c > 0 || (byEnd && c == 0) {
+			continue
+		}
+		if best == nil || bytes.Compare(e.Start, best.Start) > 0 {
+			best = e
+		}
+	}
+	state := "cold"
+	if best != nil {
+		inside := len(best.End) == 0 || bytes.Compare(key, best.End) < 0 || (byEnd && bytes.Equal(key, best.End))
+		switch {
+		case !inside:
+			state = "cold"
+		case best.Valid:
+			state = "warm"
+		case best.Flags&1 != 0:
+			state = "flagged-reload"
+		default:
+			state = "invalidated-or-expired"
+		}
+	}
+	w.sim.Count("probe." + api + ".from-" + state)
+}
+
+// stepKind turns a check point label ("post pd:getregion/67#0 = ...") into a stable signature
+// ("pd:getregion").
+func stepKind(label string) string {
+	f := strings.Fields(label)
+	if len(f) < 2 {
+		return label
+	}
+	k := f[1]
+	if i := strings.IndexAny(k, "/#"); i >= 0 {
+		k = k[:i]
+	}
+	return k
 }
